@@ -570,7 +570,7 @@ def _g_escape(draw):
 
 
 SAFE_BITS = ["<b>", "</b>", "text", " ", "  ", "\n", "&amp;", "&lt;", "<i class=\"c\">", "</i>", "word", "Z", "-", "long-word-with-hyphens", "\r\n", "X", "o"]
-PLAIN_BITS = ["text", " ", "\n", "x<y", "a&b", "\"q\"", "'s", "Z", "-", "word", "X", "o", "<b>", "  "]
+PLAIN_BITS = ["text", " ", "\n", "x<y", "a&b", "\"q\"", "'s", "Z", "-", "word", "X", "o", "<b>", "  ", "<A1>", "\"A2\"", "'A3'", "&A4;", "<A7"]
 
 
 def _value_text(draw, safe, max_size=8):
